@@ -31,7 +31,7 @@ MISS = {
  "C16_m3": "outside reach: lives in key generation (fresh entropy per key component); needs the BLAKE-based PRNG and the RLWE sampling glue inside CBMC -- freshness across draws is listed as not decided for C16",
  "C18_m1": "outside reach: the smudging noise of the key-switching protocol is sampled from the PRNG (CKKS branch); the randomised protocols are listed as not decided for C18",
  "C19_m3": "not decided: pack_lwe_ciphertexts runs field traces with key switching over log2(N) Galois keys; trace / pack are listed as not decided for C19",
- "C01_m2": "not decided: public-key encryption at a lower level needs the RLWE sampling glue (PRNG + samplers) inside CBMC; listed as outside for C01",
+ "C01_m2": "detected but not reportable: c01_pk_encrypt_zero_lower_level_stride FAILS on the changed code (exit 2), but its counterexample does not reproduce natively in 12 replays -- the real function draws fresh entropy for the error term where the model has arbitrary bytes, and the solver picks a product that the native error masks; by the rules a non-reproducing counterexample is never reported as a violation",
 }
 rows = []
 for d in sorted(glob.glob(os.path.join(ROOT, "seeded", "*_m*"))):
